@@ -8,6 +8,8 @@ from .. import paths
 from ..core import FUNC, call_attr, calls_in, const, dotted, is_const, kwarg, norm, text, walk_local
 
 EXPLANATION = [
+    'C12.max-value-inclusive: every comparison against GATT_MAX_ATTRIBUTE_VALUE_SIZE in the GATT server keeps a value of exactly that size legal (strict `>` to reject).',
+    'C12.service-identity: Client.on_service_discovered decides "already known" by comparing handles (no UUID-based lookup).',
     "C12.discovery-exits: no exit of Client.discover_descriptors / discover_attributes depends on sizes (MTU, len(...)): the loops end on the server's answers only.",
     'C12.total-mappers: shared with C10: display mappers are total (a Find Information Response with 128-bit UUIDs must format, or it is never sent).',
     'C12.included-first: Server.add_service registers unregistered included services before it adds its own service declaration; add_services skips services already registered.',
@@ -837,7 +839,42 @@ def discovery_exits(ctx):
     R.check(n >= 4, rule, f'{CLI} | Find Information loops', f'{n} exits', f'only {n} exits found')
 
 
+def service_identity(ctx):
+    """A discovered service is identified by its handle: Client.on_service_discovered keeps a service unless one with the
+    same handle is already known - two instances of one service UUID are two services."""
+    R, p = ctx.r, ctx.p
+    rule = 'C12.service-identity'
+    fn = p.find(f'{CLI}.on_service_discovered')
+    if fn is None:
+        R.bad(rule, f'{CLI}.on_service_discovered', 'anchor missing')
+        return
+    by_handle = [c for c in ast.walk(fn) if isinstance(c, ast.Compare) and isinstance(c.ops[0], (ast.Eq, ast.NotEq)) and norm(c.left).endswith('.handle') and norm(c.comparators[0]).endswith('.handle')]
+    by_uuid = [x for x in ast.walk(fn) if (isinstance(x, ast.Call) and 'uuid' in (call_attr(x) or '')) or (isinstance(x, ast.Compare) and 'uuid' in norm(x))]
+    R.check(bool(by_handle) and not by_uuid, rule, f'{CLI}.on_service_discovered', 'known = same handle', f'a discovered service is dropped as "already known" by `{norm(by_uuid[0])[:50] if by_uuid else "?"}`: the second instance of a service UUID never enters the client\'s service list, its characteristics are never discovered', p.loc(by_uuid[0]) if by_uuid else p.loc(fn))
+
+
+def max_value_inclusive(ctx):
+    """A value of exactly GATT_MAX_ATTRIBUTE_VALUE_SIZE (512) octets is legal: every size test against that constant in the
+    server rejects with a strict `>` (Write Request and Write Command agree)."""
+    R, p = ctx.r, ctx.p
+    rule = 'C12.max-value-inclusive'
+    m = p.modules.get('bumble.gatt_server')
+    if m is None:
+        R.bad(rule, 'bumble.gatt_server', 'anchor missing')
+        return
+    n = 0
+    for c in [x for x in ast.walk(m.tree) if isinstance(x, ast.Compare) and len(x.ops) == 1 and any('GATT_MAX_ATTRIBUTE_VALUE_SIZE' in norm(s_) for s_ in [x.left] + x.comparators)]:
+        n += 1
+        left_const = 'GATT_MAX_ATTRIBUTE_VALUE_SIZE' in norm(c.left)
+        strict = isinstance(c.ops[0], ast.Lt) if left_const else isinstance(c.ops[0], ast.Gt)
+        accept = isinstance(c.ops[0], ast.GtE) if left_const else isinstance(c.ops[0], ast.LtE)
+        R.check(strict or accept, rule, f'{p.qual_of(c)} | {norm(c)[:60]}', '512 octets are accepted', f'`{norm(c)[:70]}` treats a value of exactly the maximum size as too long: a legal 512-octet write is refused (a Write Command of that size is dropped without any error)', f'{m.rel}:{c.lineno}')
+    R.check(n >= 2, rule, 'bumble.gatt_server | size tests against the maximum', f'{n}', f'only {n} found')
+
+
 RULES = [
+    ('C12.max-value-inclusive', max_value_inclusive),
+    ('C12.service-identity', service_identity),
     ('C12.discovery-exits', discovery_exits),
     ('C12.total-mappers', total_mappers_rule),
     ('C12.included-first', included_first),
